@@ -6,6 +6,7 @@ import (
 	"fmt"
 	"os"
 	"runtime"
+	"strconv"
 	"strings"
 	"sync"
 	"syscall"
@@ -339,8 +340,15 @@ func doOp(task int, op *proto.Op, shared map[int]*argSlice, st *taskState) {
 	simrt.OpBegin(int32(op.ID), int32(op.Fam))
 	c0 := capSize()
 	st.inflight, st.inOp, st.inFn = a, op.ID, op.Fn
-	outcome, res, panicked := invoke(op.Fn, op.Expr, arg)
+	// the expression is handed over as a private heap copy: a library that rewrites string
+	// bytes in place (unsafe) changes the copy, not the record
+	expr := strings.Clone(op.Expr)
+	outcome, res, panicked := invoke(op.Fn, expr, arg)
 	st.inflight = nil
+	if expr != op.Expr {
+		st.viol = append(st.viol, proto.Violation{Class: "arg_mutated", Task: task, Op: op.ID, Fn: op.Fn,
+			Detail: "the bytes of the caller's expression string differ after the call", Expected: strconv.Quote(op.Expr), Observed: strconv.Quote(expr)})
+	}
 	c1 := capSize()
 	st.ops++
 	if panicked {
